@@ -8,6 +8,7 @@ import Pandora.Gen.ProvLoops
 import Pandora.Model.C08Mach
 import Pandora.Model.C08Scan
 import Pandora.Model.C08Fault
+import Pandora.Model.C08Pick
 
 namespace Pandora.Bridge.ProvLoops
 open Pandora.Model.C08 Pandora.Gen.ProvLoops
@@ -323,5 +324,82 @@ theorem poolFails_eq (r : RunRes) (c : Bool) :
     poolFailsOnProvider r c = true ↔ providerFailsPool (isCtxError (r = .nil) (r = .canceled ∧ c = true)) := by
   unfold providerFailsPool isCtxError
   cases r <;> cases c <;> simp [poolFailsOnProvider]
+
+/-! ## the chosencases filter and the counters (round 4) -/
+
+/-- an entry the chosencases filter rejects leaves runFullScan's counter alone — the limit counts DELIVERED ammo (the `else`
+branch of `Model.C08.fullScan`: the same `out`): whatever else the iteration does (cancel, limit reached, a complete pass that
+delivered nothing), on a rejected entry it goes round again in the same state.  Counting an entry before the filter looks at
+it breaks this. -/
+theorem fullScan_rejected (limit k pn i : Nat) (c : Bool) :
+    runFullScanStep limit c k pn (ScanRes.ammo i) false =
+      if c then Act.ret .canceled
+      else if limit ≠ 0 ∧ limit ≤ k then Act.ret .nil
+      else if k = 0 ∧ 0 < pn then Act.ret .errNoAmmo
+      else Act.tau k := by
+  unfold runFullScanStep
+  repeat' split
+  all_goals simp_all
+  all_goals omega
+
+/-- … and so does the inner loop of grpcjson `start` (`Model.C08.grpcLoop`: a rejected line advances `pos` only) -/
+theorem grpcInner_rejected (k : Nat) : grpcInnerStep k false = Act.tau k := by
+  unfold grpcInnerStep
+  simp
+
+/-- … a chosen one is counted once and offered -/
+theorem grpcInner_chosen (k : Nat) : grpcInnerStep k true = Act.offer 0 (k + 1) := by
+  unfold grpcInnerStep
+  simp
+
+/-! ## data sources of the generic JSON provider (round 4) -/
+
+/-- what `OpenSource` of every source of core/datasource hands out — classified by go/types from the current source: a value
+whose static type has `Seek`, the reader the source was built from as it is, or a value whose `Seek` is hidden — is what
+`Model.C08.opensOf` says.  Returning inline data behind `ioutil.NopCloser` (which hides `Seek`) breaks this at `.inline`;
+dropping the ReadSeeker branch of `readerSource.OpenSource` at `.readSeeker`. -/
+theorem srcOpens_eq (k : SrcKind) : opensOf k =
+    match k with
+    | .file => srcOpensFile
+    | .inline => srcOpensInline
+    | .buffer => srcOpensBuffer
+    | .readSeekCloser => srcOpensReader true true
+    | .readSeeker => srcOpensReader false true
+    | .readCloser => srcOpensReader true false
+    | .reader => srcOpensReader false false := by
+  cases k <;> rfl
+
+/-- `NewMultiPassReader` hands the source itself to the decoder — one pass — exactly when the model's `effPasses` is 1:
+`passes: 1`, or a source that cannot `Seek` whatever `passes` says -/
+theorem mprOnce_eq (passes : Nat) (hasSeek : Bool) : mprOnce passes hasSeek = true ↔ effPasses hasSeek passes = 1 := by
+  unfold mprOnce effPasses
+  cases hasSeek <;> simp
+
+/-- … and for a source that can Seek this is the bypass rule the replay model of `MultiPassReader` starts from -/
+theorem mprOnce_bypass (passes : Nat) : mprOnce passes true = true ↔ mprBypass passes := by
+  unfold mprOnce mprBypass
+  simp
+
+/-- `DecodeProvider.Run` gives `NewMultiPassReader` what `OpenSource` returned, as it is (no wrapper in between that could
+hide or add a `Seek`) -/
+theorem decodeReads_opened : decodeReadsOpened = true := rfl
+
+/-! ## the types of the options (round 4) -/
+
+/-- `limit` / `passes` of every provider family have the Go type `Model.C08.Kind.boundTy` says — `uint` for the http
+formats and the scenario providers (so every value up to 2^64-1 is a valid option value, and `C08_replay_no_wrap` is
+about the right machine integers), `int` for grpc/json and the generic JSON provider — and the streaming decoders count
+in the type they compare with -/
+theorem optTypes_eq :
+    (∀ k : Kind, (k.boundTy, k.boundTy) =
+      match k with
+      | .uri | .uripost | .raw | .jsonLines | .jsonArray => httpOptTy
+      | .httpScenario | .grpcScenario => scenarioOptTy
+      | .grpcJson => grpcOptTy
+      | .genericJson => decodeOptTy) ∧
+    httpDecCtrTy = httpOptTy := by
+  refine ⟨?_, rfl⟩
+  intro k
+  cases k <;> rfl
 
 end Pandora.Bridge.ProvLoops
